@@ -840,7 +840,7 @@ func (s spec) RunTask(ctx context.Context, _ *zap.Logger, _ int) error {
 	if n < len(s.outcomes) {
 		switch s.outcomes[n] {
 		case "err":
-			return errors.New("verif: injected task failure")
+			return rtp.InjErr(n, "verif: injected task failure")
 		case "panic":
 			panic("verif: injected task panic")
 		}
